@@ -14,6 +14,7 @@ RULE = ('a DM1 sender (Dm1.start_send with cycle 50 ms..2 s) whose callback supp
         'SPN/FMI/OC over their full ranges (boundaries over-weighted); 1-2 receiver stacks with Dm1.subscribe and a raw listener; both data link layers so the message '
         'travels as single frame, BAM, FD multi-PG or FD BAM; start_send/stop_send histories; DM22 individual-clear requests. The raw payload on the receiving stack is '
         'decoded by the independent J1939-73 codec. non-trivial = at least one DM1 message was delivered; distinct = distinct scenario JSON')
+FAULT_COUNTERS = {'stop_send calls': 'stops'}
 REQUIRED_PROBES = ['dm1_cycles', 'dm1_deliveries', 'single_frame_msgs', 'bam_msgs', 'mpg_msgs', 'fd_bam_msgs', 'stops', 'dm22_frames', 'spn_above_16bit']
 T_ADDR = 0x3A
 SPNS = [0, 1, 0xFFFF, 0x10000, 0x10001, 0x40000, 0x7FFFF, 0x7FFFE, 0x5A5A5]
